@@ -141,10 +141,10 @@ def main(rep):
                 found = True
                 break
             if exe_model and impl.get(cid) != model.get(cid):
-                rep.violation("correspondence", {"case": cid, "script": [script], "driver": "pure", "implementation": impl.get(cid),
-                                                 "model": model.get(cid), "what": "implementation and model differ"}, found_input=False)
-                found = True
-                break
+                # a divergence is reported only if no monitor fires on any case (a concrete failing input wins)
+                rep.defer_divergence({"case": cid, "script": [script], "driver": "pure", "implementation": impl.get(cid),
+                                                 "model": model.get(cid), "what": "implementation and model differ"})
+                continue
             validated += 1
         total += len(bc)
         rng = random.Random(rep.seed)
